@@ -529,7 +529,11 @@ func (p *OAuthProxy) AuthenticateOnly(rw http.ResponseWriter, req *http.Request)
 	if err != nil {
 		p.StatsdClient.Incr("application_error", []string{"action:auth", "error:unauthorized_request"}, 1.0)
 		logger.Error(err, "error authenticating")
-		http.Error(rw, "unauthorized request", http.StatusUnauthorized)
+		// written out by hand: http.Error would set X-Content-Type-Options itself and so undo
+		// an upstream's header_overrides for that header
+		rw.Header().Set("Content-Type", "text/plain; charset=utf-8")
+		rw.WriteHeader(http.StatusUnauthorized)
+		fmt.Fprintln(rw, "unauthorized request")
 	}
 	rw.WriteHeader(http.StatusAccepted)
 }
